@@ -2,6 +2,7 @@
    gaps, the period being expressed in the unit of the time-stamps. *)
 From Coq Require Import QArith List.
 From RV Require Import Jitter.
+From RV Require Import Units PyUnits UnitsGen UnitsGenCorrect.
 From RV Require Val Syntax Rho Offline ListFacts OfflineCorrect Online OnlineCorrect.
 Import ListNotations.
 Local Open Scope Q_scope.
@@ -46,6 +47,29 @@ Proof.
   rewrite A1, B1, A2, B2, Hl. repeat split; reflexivity.
 Qed.
 Print Assumptions C13_values_independent_of_stamps.
+
+(* the counter GENERATED from the Python text on every build (tools/py2coq_units.py -> UnitsGen.v: gap, update_sampling_violation_counter,
+   the counter statements of update() / reset() / evaluate(), __init__, set_sampling_period) computes the hand model above: one update()
+   is jstep, the updates of a fresh or reset monitor are jrun, evaluate() is joff, reset() is jreset, __init__ gives jinit;
+   jperiod s = sampling_period * U[its unit] / ast.U[ast.unit] is the period in time-stamp units, normalize s is 1 after __init__ *)
+Theorem C13_generated_counter :
+  (forall s t, (0 <= update_counter s)%Z -> (0 <= sampling_violation_counter s)%Z ->
+     exists s', gen_online_update_counter s t = Ret s' /\
+                jabs s' = jstep (jperiod s) (sampling_tolerance s) (normalize s) (jabs s) t /\
+                same_settings s s' /\ (0 <= update_counter s')%Z /\ (0 <= sampling_violation_counter s')%Z) /\
+  (forall s ts, update_counter s = 0%Z -> previous_time s = 0 -> sampling_violation_counter s = 0%Z ->
+     exists s', gen_online_run s ts = Ret s' /\ jabs s' = jrun (jperiod s) (sampling_tolerance s) (normalize s) ts) /\
+  (forall s ts, exists s', gen_offline_evaluate_counter s ts = Ret s' /\
+     sampling_violation_counter s' = Z.of_nat (joff (jperiod s) (sampling_tolerance s) (normalize s) ts) /\
+     same_settings s s' /\ update_counter s' = update_counter s /\ previous_time s' = previous_time s) /\
+  (forall s, exists s', gen_online_reset_counter s = Ret s' /\ jabs s' = jreset (jabs s) /\ same_settings s s') /\
+  (forall a, exists s, gen_init (dti_blank a) = Ret s /\ jabs s = jinit /\ normalize s = 1 /\
+     sampling_period s = 1 /\ sampling_period_unit s = US /\ sampling_tolerance s = 1 # 10 /\ dti_ast s = a) /\
+  (forall s p u tol, gen_set_sampling_period s p u tol =
+     if qltb tol 0 || qltb 1 tol then Raise PyException
+     else Ret (set_sampling_tolerance_ (set_sampling_period_unit_ (set_sampling_period_ s p) u) tol)).
+Proof. exact @counter_gen_refines. Qed.
+Print Assumptions C13_generated_counter.
 
 Example C13_nonvacuous :
   (* period 500 ms, default unit s: norm = 10^9/10^6; stamps 0, 0.5, 1.25, 1.75: one bad gap *)
